@@ -316,7 +316,7 @@ def run(ctx: Ctx):
     rng = ctx.rng
     globals_ = glb_names()
     jobs, cases = [], []
-    nsc = ctx.n(4, 30)
+    nsc = ctx.n(4, 120)
     for s in range(nsc):
         spec = rich.random_spec(rng)
         osets = OPTION_SETS if not ctx.quick() else [OPTION_SETS[0]] + rng.sample(OPTION_SETS[1:], 7)
